@@ -353,6 +353,55 @@ def run(out: Outcome) -> None:
                 _, err = construct(cls, {**base, "two_sided_test": bad})
                 if err is None:
                     out.violation(f"{cls}Config(two_sided_test={bad!r}) is accepted", {"class": cls})
+    # ordering constraints JOINTLY: both parameters of a pair moved away from their defaults, on either side of the OTHER parameter's default (a pair is valid or not by
+    # what the two values are, not by where the defaults lie)
+    PAIRS = {"DDM": ("warning_level", "drift_level", [0.3, 1.0, 2.0, 2.5, 3.0, 3.5, 6.0, 40.0]),
+             "RDDM": ("warning_level", "drift_level", [0.5, 1.773, 2.0, 2.258, 2.3, 3.0, 4.0, 6.0]),
+             "HDDMA": ("alpha_d", "alpha_w", [1e-4, 0.001, 0.004, 0.005, 0.006, 0.3, 0.9, 1.0]),
+             "HDDMW": ("alpha_d", "alpha_w", [1e-4, 0.001, 0.004, 0.005, 0.006, 0.3, 0.9, 1.0]),
+             "STEPD": ("alpha_d", "alpha_w", [1e-4, 0.003, 0.01, 0.05, 0.06, 0.5]),
+             "EDDM": ("beta", "alpha", [0.3, 0.89, 0.9, 0.91, 0.95, 0.96, 1.5])}
+    for cls, (lo_name, hi_name, vals) in PAIRS.items():
+        table, base = STATED[cls], dets.full_params(cls, {})
+        for a_ in vals:
+            for b_ in vals:
+                prm = {**base, lo_name: a_, hi_name: b_}
+                det, err = construct(cls, prm)
+                stated_ok = all(pr(prm[nm], prm) for nm, (_, pr) in table.items())
+                rep = {"class": cls, "params": prm, "varied": f"{lo_name} x {hi_name}"}
+                if (err is None) != stated_ok:
+                    out.violation(f"{cls}Config({lo_name}={a_!r}, {hi_name}={b_!r}): {'accepted' if err is None else 'rejected with ' + type(err).__name__ + ': ' + str(err)} but the "
+                                  f"stated domain says {'accept' if stated_ok else 'reject'}", rep)
+                lines.append(cfg_line(cls, prm))
+                expect.append((None if err is None else (kind_of(err) or "Other"), rep))
+                if err is None and rng.random() < (0.3 if thorough else 0.08):
+                    operable(out, rng, cls, prm, thorough)
+                out.case({"class": cls, "params": prm, "pair": True})
+    # RDDM keeps its recent predictions in a ring of `min_concept_size` slots and replays them after an event: accepted configurations with SMALL rings on runs long
+    # enough for the ring to wrap many times, with events of every kind (drift after warnings, warning limit, concept-size limit)
+    for k in range(6 if thorough else 3):
+        prm = {"warning_level": rng.choice([0.8, 1.2, 1.773]), "drift_level": rng.choice([2.258, 2.6, 3.0]), "min_num_instances": rng.choice([5, 30, 60]),
+               "min_concept_size": rng.choice([7, 25, 100]), "max_concept_size": rng.choice([150, 400, 40000]), "max_num_instances_warning": rng.choice([5, 30, 1400])}
+        det, err = construct("RDDM", prm)
+        if det is None:
+            out.violation(f"RDDMConfig({prm}) inside the stated domains is rejected: {type(err).__name__}: {err}", {"class": "RDDM", "params": prm})
+            continue
+        xs, pr_err = [], 0.05
+        for seg in range(rng.randint(4, 8)):
+            pr_err = rng.choice([0.02, 0.1, 0.25, 0.5, 0.8]) if seg else 0.05
+            xs += [1 if rng.random() < pr_err else 0 for _ in range(rng.randint(120, 500))]
+        events = 0
+        for t, x in enumerate(xs, 1):
+            try:
+                det.update(value=x)
+                events += bool(det.drift)
+            except Exception as e:  # noqa: BLE001
+                out.violation(f"RDDM: accepted configuration {prm} raises {type(e).__name__}: {e} at update {t} of a 0/1 stream with several concept changes",
+                              {"class": "RDDM", "params": prm, "stream": xs[:t]})
+                break
+        out.count("rddm_small_ring_long_runs")
+        out.count("rddm_small_ring_drifts", events)
+        out.case({"class": "RDDM", "params": prm, "n": len(xs), "small_ring": True})
     # every public package is importable as the FIRST frouros import of a process (operability starts with the import statement)
     import subprocess
     import sys
